@@ -167,13 +167,13 @@ func observe(ctx context.Context, st storage.Store) (map[string]*mGraphC4, strin
 		if err != nil {
 			return nil, "Graph(" + n + "): " + err.Error()
 		}
-		ch := make(chan *triple.Triple, 1<<14)
-		if err := g.Triples(ctx, storage.DefaultLookup, ch); err != nil {
+		all, err := allTriples(ctx, g)
+		if err != nil {
 			return nil, "Triples: " + err.Error()
 		}
 		mg := newMG()
 		byBlank := map[string][]string{}
-		for t := range ch {
+		for _, t := range all {
 			if on, err := t.Object().Node(); err == nil && isBlank(on) && !isBlank(t.Subject()) {
 				// a blank node as object (only legitimate when a WHERE pattern read it from a graph):
 				// kept as a plain triple with the blank id canonicalised
@@ -589,11 +589,8 @@ func (h *stmtHarness) currentTriples(ctx context.Context, st storage.Store) map[
 		if err != nil {
 			continue
 		}
-		ch := make(chan *triple.Triple, 1<<14)
-		g.Triples(ctx, storage.DefaultLookup, ch)
-		for t := range ch {
-			out[n] = append(out[n], t)
-		}
+		all, _ := allTriples(ctx, g)
+		out[n] = append(out[n], all...)
 	}
 	return out
 }
